@@ -2488,6 +2488,8 @@ def run_transl(ctx, ars_enc_pairs, ars_dec_pairs, tms_enc_pairs=(), tms_dec_pair
     for t in strs:
         arg = "N" if t is None else hx(t.encode("utf-8"))
         extra.append(("t.ars.lv " + arg, call(lambda: hx(ARS.encode_len_val(t)))))
+        if t is not None:   # the prelude's len(str) on the UTF-8 carrier
+            extra.append(("t.ars.prim.strlen " + hx(t.encode("utf-8")), str(len(t))))
         if t is not None:   # the bytes form of the Union parameter
             tb = t.encode("utf-8")[::-1]
             extra.append(("t.ars.lvb " + hx(tb), call(lambda: hx(ARS.encode_len_val(tb)))))
